@@ -2,7 +2,7 @@
    well-formedness check for list-given trees, the non-vacuity example and the
    witnesses of the three refuted statements (all by vm_compute). *)
 From Coq Require Import List NArith Bool Lia.
-From GV Require Import Lib.Tactics Chain.Tree Chain.Canonical Chain.CanonicalProofs Chain.CanonicalInv.
+From GV Require Import Lib.Tactics Chain.Tree Chain.Canonical Chain.CanonicalProofs Chain.CanonicalInv Chain.CanonicalTop.
 Import ListNotations.
 Local Open Scope N_scope.
 
@@ -108,5 +108,20 @@ Proof.
   eexists. eexists. split; [vm_compute; reflexivity|]. repeat split; reflexivity.
 Qed.
 
-Lemma nonvacuous : wf_tree WT /\ nonvacuous_check = true.
-Proof. split; [exact WT_wf | exact nonvacuous_ok]. Qed.
+(* a history with SetHead and a restart along which the heads stay together: the
+   hypotheses of C38_no_entry_above_head are met *)
+Definition guarded_ops : list op :=
+  [OInsert [1;2;3;4]; OSetHead 2; ORestart; OInsert [5]; OSetCanonical 2; OInsert [3]].
+
+Lemma WT_genesis_parent : forall g, WT 0 = Some g -> WT (b_parent g) = None.
+Proof. intros g H. vm_compute in H. inversion H; subst. vm_compute. reflexivity. Qed.
+
+Lemma guarded_ok : heads_equal_along WT wfuel genesis_db guarded_ops /\ hd_header (wrun guarded_ops) = 3.
+Proof. vm_compute. repeat split; reflexivity. Qed.
+
+Lemma nonvacuous : wf_tree WT /\ nonvacuous_check = true /\
+  (forall g, WT 0 = Some g -> WT (b_parent g) = None) /\
+  heads_equal_along WT wfuel genesis_db guarded_ops /\ hd_header (wrun guarded_ops) = 3.
+Proof.
+  split; [exact WT_wf|]. split; [exact nonvacuous_ok|]. split; [exact WT_genesis_parent | exact guarded_ok].
+Qed.
